@@ -316,7 +316,9 @@ Section Eval.
           | VBuiltin nm =>
               if beq nm names_len then
                 match args with
-                | [v] => match len_of s v with Some z => (OVal (VInt z), e, s) | None => (OErr XType, e, s) end
+                | [v] => match len_of s v with
+                         | Some z => (OVal (VInt z), e, s)
+                         | None => (match v with VStr _ => OErr XUnsupported | _ => OErr XType end, e, s) end
                 | _ => (OErr XArgs, e, s)
                 end
               else if beq nm names_print then (OVal VNil, e, add_trace s args)
@@ -587,7 +589,41 @@ Section Eval.
                 end
             end
       | NAssignIndex l i op v =>
-          if negb (beq op [61%N]) then (OErr XUnsupported, e, s) else
+          if negb (beq op [61%N]) then
+            (* compound assignment to an item: the container and the index are evaluated ONCE, then
+               the right-hand side, then the operator is applied and the result stored *)
+            match eval e s l with
+            | (OVal c, e1, s1) =>
+                match eval e1 s1 i with
+                | (OVal k, e2, s2) =>
+                    match get_item s2 c k with
+                    | OVal old =>
+                        match eval e2 s2 v with
+                        | (OVal x, e3, s3) =>
+                            let bop := match op with o :: _ => [o] | [] => [] end in
+                            match binop s3 bop old x with
+                            | (OVal r, s4) =>
+                                match c, k with
+                                | VList ll, VInt idx =>
+                                    let items := nth ll (lists s4) [] in
+                                    match resolve_index idx (Z.of_nat (length items)) with
+                                    | Some j => (OVal VNil, e3, set_list s4 ll (list_set items (Z.to_nat j) r))
+                                    | None => (OErr XIndex, e3, s4)
+                                    end
+                                | VMap ml, VStr kk => (OVal VNil, e3, set_map s4 ml (map_insert kk r (nth ml (maps s4) [])))
+                                | _, _ => (OErr XType, e3, s4)
+                                end
+                            | (o, s4) => (o, e3, s4)
+                            end
+                        | other => other
+                        end
+                    | o => (o, e2, s2)
+                    end
+                | other => other
+                end
+            | other => other
+            end
+          else
           match eval e s v with
           | (OVal x, e1, s1) =>
               match eval e1 s1 l with
